@@ -112,7 +112,7 @@ _ADD = {
     'C04': 'decision table "while the waiting future is pending every way through Waiting.interrupt fails it with the reason"; path-sensitive resolver of the action built per interruption; listener notification over a snapshot inside the per-listener try (shared with C02); who-may-forget-a-pending-pause table fencing in known finding G5',
     'C05': 'decision table "the last awaitable completing always resolves the waiting future" (work chain); set_status stores whatever it is given; per-path fact queries (holds_on_every_path, site_fact_cases); decision tables of the message handlers over the intent: every control intent through the one scheduling routine (shared with C16); persisted rows of the pause status (shared with C07); listener snapshot (shared with C02); deferred pause interrupts the running state by a direct call; every awaited item watched / removed only by the done-callback; waiting future replaced only after an interruption',
     'C06': 'outcome of an interrupted step entered before the pause hooks (order rule on _do_pause); barrier-opens-when-empty decision table; state tables built per class (shared with C01 / C10); every awaited item watched / removed only by the done-callback; waiting future replaced only after an interruption; pause interrupts at once',
-    'C07': 'key agreement over the save/load method CHAINS along the MRO per concrete class; declared-type rule (auto-persisted container of futures cannot be deep-copied); exception-class rule (constructor vs args, type-aware containment up to the EXCEPTED sink); persist() hook run before the member table is read, on the load side too (shared with C19); a saved mapping is handed to its constructor whole, never spread into named parameters; copy hooks keep the class; every YAML representer emits a tag a registered constructor reads back; loader precedence (shared with C19); member copy as a decision table',
+    'C07': 'key agreement over the save/load method CHAINS along the MRO per concrete class; declared-type rule (auto-persisted container of futures cannot be deep-copied); exception-class rule (constructor vs args, type-aware containment up to the EXCEPTED sink); persist() hook run before the member table is read, on the load side too (shared with C19); a saved mapping is handed to its constructor whole, never spread into named parameters; copy hooks keep the class; every YAML representer emits a tag a registered constructor reads back; loader precedence (shared with C19); member copy as a decision table; optional keys of the saved state restored one per KeyError handler (keys-restored-independently, shared with C08/C17); nested steppers restore their child from the instruction it was created from (selector-agreement, shared with C08); no auto-persisted member re-assigned after the members were restored (load-clobbers)',
     'C08': 'pause-hook order rule (shared with C06); resume-only wake-up of a restored WAITING state (shared with C13); container-of-futures member rule (shared with C07); every member deep-copied into the checkpoint, no by-type fast path (shared with C07); copy hooks of persisted containers keep the class; pickle persister: the file is the store -- every path of load_checkpoint reads it, or save and delete drop the kept entry under the same key expression (shared with C14); recreated stepper bound to the instruction itself; no fresh child stepper on load; waiting future replaced only after an interruption (shared with C06)',
     'C09': 'spec built per class (fresh spec, filled by cls.define, own-class cache lookup); alias rule (ToContext is dict itself); one reading of in-order loops (for / enumerate / range(len) / index-driven while); step wrapper returns the result unchanged (shared with C13); instructions are read-only after construction (no method but __init__ stores into the shared outline); fallback to unsuccessful FINISHED keeps the result (shared with C12); no fresh child stepper on load (shared with C08)',
     'C10': 'barrier-opens-when-empty decision table; state table built per class; alias rule (ToContext is dict); registry keyed by the awaitable found in loops and dict comprehensions alike; re-raise-ahead-of-catch-all rule (shared with C03: a cancelled awaitable\'s error is an Exception); per-instance table of awaited items (no mutable class-level default filled in place); every awaited item watched',
